@@ -170,8 +170,16 @@ UNI_PREDS = ["_straße_n_1", "_strasse_n_1", "_λόγος_n_1", "_λόγοσ_n_1
              "_see_v_1", "_İstanbul_n_1", "_istanbul_n_1", "_ıstanbul_n_1", "_café_n_1", "_cafe\u0301_n_1",
              "_ΣΟΦΌΣ_a_1", "_σοφός_a_1", "_ａｂｃ_n_1", "_abc_n_1", "_\u212aelvin_n_1", "_kelvin_n_1", "_kiss_v_1",
              "_µ_n_1", "_ǆem_n_1"]
-UNI_CARGS = ["Straße", "Strasse", "STRASSE", "Σίσυφος", "σίσυφος", "İzmir", "Izmir", "ﬁn", "fin", "Ｋｉｍ"]
-UNI_VALUES = ["ß", "ss", "SS", "Σ", "σ", "ς", "İ", "i", "ſg", "sg"]
+UNI_CARGS = ["Straße", "Strasse", "STRASSE", "Σίσυφος", "σίσυφος", "İzmir", "Izmir", "ﬁn", "fin", "Ｋｉｍ", "Café",
+             "Cafe\u0301"]
+UNI_VALUES = ["ß", "ss", "SS", "Σ", "σ", "ς", "İ", "i", "ſg", "sg", "é", "e\u0301", "pré", "pre\u0301", "ａ", "a", "ﬁ",
+              "fi"]
+
+
+def pick_twin(rng, cands, key):
+    """prefer (3:1) the candidates whose new string differs from the old one by more than ASCII case"""
+    strong = [c for c in cands if key(c)[0].lower() != key(c)[1].lower() or not key(c)[1].isascii()]
+    return rng.choice(strong if strong and rng.random() < 0.75 else cands)
 
 
 def twin_variants(s):
@@ -228,7 +236,7 @@ def unicodeify(rng, j):
             e["carg"] = rng.choice(UNI_CARGS)
     for _, ps in j["vars"]:
         for kv in ps:
-            if rng.random() < 0.4:
+            if rng.random() < 0.6:
                 kv[1] = rng.choice(UNI_VALUES)
     return j
 
@@ -256,21 +264,21 @@ def mutate(rng, j, what, fresh=False):
         cands = [(e, v) for e in rels for v in twin_variants(e["pred"])]
         if not cands:
             return None
-        e, v = rng.choice(cands)
+        e, v = pick_twin(rng, cands, lambda c: (c[0]["pred"], c[1]))
         e["pred"] = v
         return j
     if what == "cargtwin":
         cands = [(e, v) for e in rels if e.get("carg") for v in twin_variants(e["carg"])]
         if not cands:
             return None
-        e, v = rng.choice(cands)
+        e, v = pick_twin(rng, cands, lambda c: (c[0]["carg"], c[1]))
         e["carg"] = v
         return j
     if what == "proptwin":
         cands = [(ps, i, v) for _, ps in j["vars"] for i in range(len(ps)) for v in twin_variants(ps[i][1])]
         if not cands:
             return None
-        ps, i, v = rng.choice(cands)
+        ps, i, v = pick_twin(rng, cands, lambda c: (c[0][c[1]][1], c[2]))
         ps[i][1] = v
         return j
     if what == "roletwin":
@@ -891,7 +899,7 @@ class C06(Check):
             yield mk("shuffled", m, rename_shuffle(rng, m, rename=False), not props)
         whats = rng.sample(MUTATIONS, 3 if not big else 2)
         if rng.random() < 0.5:
-            whats.append(rng.choice(["predtwin", "predtwin", "cargtwin", "proptwin"]))
+            whats.append(rng.choice(["predtwin", "predtwin", "cargtwin", "proptwin", "proptwin"]))
         for what in whats:
             mu = mutate(rng, m, what, fresh=(big and rng.random() < 0.5))
             if mu is None or not in_space(mu):
@@ -910,6 +918,21 @@ class C06(Check):
             o = small[(idx * 31 + 7) % len(small)]
             yield {"kind": "pair", "sub": "unrelated", "family": "enum", "m1": m, "m2": rename_shuffle(drng, o),
                    "props": True, "seed": idx, "big": False}
+        # deterministic: every twin pair in every slot (predicate, constant, property value, role)
+        for k, (a, b) in enumerate(TWINS):
+            for slot in ("pred", "carg", "prop", "role"):
+                def build(x):
+                    e1 = ep("_w%sz_n_1" % x if slot == "pred" else "_p_n_1", ["h", 1], [["ARG0", ["x", 1]]],
+                            ("C" + x) if slot == "carg" else None)
+                    e2 = ep("_q_v_1", ["h", 1], [["ARG0", ["e", 2]], [("R" + x) if slot == "role" else "ARG1", ["x", 1]]])
+                    vs = [[["x", 1], [["PERS", x]]]] if slot == "prop" else []
+                    return {"top": ["h", 0], "index": ["e", 2], "rels": [e1, e2], "hcons": [[["h", 0], "qeq", ["h", 1]]],
+                            "icons": [], "vars": vs}
+                for props in ((True, False) if slot == "pred" else (True,)):
+                    yield {"kind": "pair", "sub": "mutant:%stwin" % {"pred": "pred", "carg": "carg", "prop": "prop",
+                                                                     "role": "role"}[slot],
+                           "family": "twins", "m1": build(a), "m2": rename_shuffle(drng, build(b)), "props": props,
+                           "seed": 1000 + k, "big": False}
         count = 0
         nbig = 0
         while count < n:
